@@ -24,3 +24,12 @@ bool positive_same_tuple_positions(const StateTuple &children, std::size_t index
 bool negative_two_tuples_same_position(const StateTuple &a, const StateTuple &b, std::size_t i) {
   return a[i] == b[i];
 }
+std::size_t positive_first_position_only(const StateTuple &children, unsigned long state) {
+  auto it = std::find(children.begin(), children.end(), state);
+  if (it == children.end()) { return children.size(); }
+  return static_cast<std::size_t>(it - children.begin());
+}
+bool negative_membership(const StateTuple &children, unsigned long state) {
+  auto it = std::find(children.begin(), children.end(), state);
+  return it != children.end() || std::find(children.begin(), children.end(), state + 1) != children.end();
+}
